@@ -74,6 +74,18 @@ def _fpops(sort, ctx):
                 "FPA_EQ_STRUCT": x == y})
     other = z3.Float32(ctx) if w == 64 else z3.Float64(ctx)
     ops["FPA_TO_FP[fp]"] = z3.fpFPToFP(rm, x, other)
+    # numerals: the constant must survive the round trip bit for bit (x + c is used so that the numeral sits inside an application; every
+    # binade class: zero exponent field = subnormal, lowest / middle / highest normal binade, both signs, dense and sparse significands)
+    eb, sb = sort.ebits(), sort.sbits() - 1
+    emax = (1 << eb) - 1
+    for en, e in (("subnormal", 0), ("lowest-normal", 1), ("mid", emax // 2), ("one-below-bias", emax // 2 - 1), ("highest-normal", emax - 1)):
+        for mn, m in (("m0", 0), ("m1", 1), ("mhalf", 1 << (sb - 1)), ("mmax", (1 << sb) - 1), ("mmix", (0x5A5A5A5A5A5A5A5A >> (64 - sb)) | 1)):
+            if e == 0 and m == 0:
+                continue        # zeros are their own kinds
+            for sn, sg in (("+", 0), ("-", 1)):
+                bits = (sg << (eb + sb)) | (e << sb) | m
+                num = z3.simplify(z3.fpBVToFP(z3.BitVecVal(bits, w, ctx), sort))
+                ops[f"FPA_NUM[{sn}{en}.{mn}]"] = z3.fpAdd(rm, x, num)
     return {k: v for k, v in ops.items() if v is not None}
 
 
